@@ -200,6 +200,8 @@ func init() {
 			{"alloc-scans-all", "the relationship id allocator's scanning loop has no early exit", ruleAllocScansAll},
 			{"alloc-append-atomic", "between taking a relationship id from the allocator and adding the relationship that carries it, nothing runs that can add another relationship (which would be given the same id)", ruleAllocAppendAtomic},
 			{"rel-serialise-all", "every relationship of the in-memory list (the newest header/footer relationship included) is written to the relationship part on save", ruleRelSerialiseAll},
+			{"rel-append-only", "relationships are only ever added: the relationship the current reference of a kind resolves through is never removed or rewritten by a later call or by saving", ruleRelAppendOnly},
+			{"part-pass/no-delete", "no part is ever deleted from the package: the header/footer part a reference resolves to stays (a second definition of a kind overwrites the part, it does not orphan it)", filtered(rulePartPass, "part-pass:delete", "part-pass:no-delete")},
 			{"sectpr-singleton", "header/footer calls find the one section-properties element wherever it is (full search before a new one is appended)", ruleSectPrSingleton},
 			{"fresh-dep/relid", "header/footer relationship ids are computed from the ids already in the list, with one allocation scheme for all relationships of that list (a private counter next to list-scanning allocators falls behind)", ruleFreshRelID},
 		},
@@ -322,6 +324,7 @@ func init() {
 		Explanation: "Decides: (dispatch-exh) every goldmark node type the parser can produce is classified; every block kind that needs its own rendering has a case in Render; every inline kind that carries its own text (no Text children) has a case in the shared text extractor; the inline renderer's default arm falls back to that extractor; (style-id) style ids the renderer emits are defined.",
 		NotDecided:  "totality (no panic for any byte string: index arithmetic in the LaTeX conversion is value-level), goldmark's own behaviour, table dimensions, code indentation",
 		Rules: []Rule{
+			{"format-param", "no function of the Markdown renderer modifies a *TextFormat it was handed (nested emphasis must work on a copy, or the rest of the enclosing span inherits the nested formatting)", ruleFormatParam},
 			{"dispatch-exh", "node-kind classification vs type switches", ruleDispatchExh},
 			{"style-id", "emitted style ids ⊆ registry", func(r *Run) { ruleStyleID(r, pkgMd) }},
 			{"cross-call-state", "no renderer field carries values from one block to the next except the frozen, reasoned ones", ruleCrossCallState("WordRenderer", "(*WordRenderer).Render")},
